@@ -23,3 +23,17 @@ func (r *Reconnector) VerifC31State(addr string) (exists bool, attempts int, nex
 	}
 	return true, s.attempts, s.nextDelay, s.timer
 }
+
+// VerifC31Preset puts the reconnect state of addr into "n consecutive failures so far"
+// (attempt counter n, next delay as given). Returns false when addr has no state.
+func (r *Reconnector) VerifC31Preset(addr string, n int, next time.Duration) bool {
+	r.mu.Lock()
+	defer r.mu.Unlock()
+	s, ok := r.states[addr]
+	if !ok {
+		return false
+	}
+	s.attempts = n
+	s.nextDelay = next
+	return true
+}
